@@ -29,6 +29,19 @@ Proof. exact write_read_current_full. Qed.
 Theorem C18_roundtrip_columns : forall c v, of_col_type c v -> roundtrip_col c v = Ok v.
 Proof. exact roundtrip_col_ok. Qed.
 
+(* float64 columns.  Premises (Go's strconv, the client's encoder, SQLite): a formatted float parses back to itself
+   (shortest-spelling round trip), and a REAL cell returns the bound value for every storable value (every finite
+   value except negative zero, whose sign SQLite's REAL does not keep through this path).  Then every storable float
+   written through the row endpoint is read back as the same float. *)
+Theorem C18_float_roundtrip :
+  forall (F : Type) (client_format server_format : F -> list N) (parse_float : list N -> option F)
+         (sqlite_real : F -> F) (storable : F -> Prop),
+    (forall f, parse_float (client_format f) = Some f) ->
+    (forall f, parse_float (server_format f) = Some f) ->
+    (forall f, storable f -> sqlite_real f = f) ->
+    forall f, storable f -> float_roundtrip F client_format server_format parse_float sqlite_real f = Some f.
+Proof. exact float_roundtrip_ok. Qed.
+
 (* The OLD decoding (roundtrip = every JSON number through float64). *)
 (* The statement fails for int columns: JSON numbers pass through float64.  2^53+1 comes back as 2^53 and the
    largest int64 comes back as the smallest. *)
@@ -84,3 +97,11 @@ Example C18_ex_columns :
   of_col_type ColDate (CVDate (-719162)) /\ roundtrip_col ColDate (CVDate 19783) = Ok (CVDate 19783) /\
   instant_of (CVTod 45045 0) = Ok (VTs (-62167174155) 0).
 Proof. cbn [of_col_type]. repeat split; try lia; vm_compute; reflexivity. Qed.
+(* the premises of C18_float_roundtrip are satisfiable: halves k/2 written "k/2" in decimal, -0 modelled as (0, true) *)
+Example C18_ex_float :
+  let F := (Z * bool)%type in
+  let fmt := fun f : F => [Z.to_N (fst f + 1000); if snd f then 1%N else 0%N] in
+  let prs := fun t : list N => match t with [a; b] => Some (Z.of_N a - 1000, N.eqb b 1) | _ => None end in
+  let real := fun f : F => (fst f, if fst f =? 0 then false else snd f) in
+  float_roundtrip F fmt fmt prs real (3, false) = Some (3, false) /\ float_roundtrip F fmt fmt prs real (0, true) = Some (0, false).
+Proof. vm_compute. split; reflexivity. Qed.
